@@ -327,6 +327,7 @@ func (ex *Exec) runPath(h *Harness, prefix []int32) (reason string) {
 	ex.fs = nil
 	ex.streams = nil
 	ex.uuids = nil
+	ex.pools = nil
 	ex.nuuid = 0
 	ex.onceDone = nil
 	defer func() {
